@@ -172,6 +172,8 @@ WORLD_WRAPS = ["coap_ticks", "coap_socket_bind_udp", "coap_socket_connect_udp", 
                "coap_socket_read", "coap_socket_write", "coap_malloc_type", "coap_realloc_type",
                "coap_free_type",
                # persistence crash points (harness/persist.c); pass-through unless `persist` is used
+               # library-internal waits consume virtual time (wraps.c)
+               "select",
                "fopen", "fclose", "fwrite", "fread", "fgets", "fflush", "fprintf", "rename", "remove"]
 
 
